@@ -1,76 +1,383 @@
-//! scratch probe 2 (will be replaced)
-use grafeo_core::graph::lpg::LpgStore;
+//! C20 — concurrent use is safe.
+//!
+//! A deterministic scheduler drives real threads through the real code: every worker thread
+//! blocks inside the `grafeo_common::verif` yield-point hook (commit 45dda10 of /repo) until the
+//! driver grants it the next step of the schedule; a granted step runs from the current yield
+//! point (or the start of the operation) to the next yield point (or the end of the operation) and
+//! reports where it ended.  Per case the harness emits
+//!   * the schedule, the yield site at which every step ended, the per-thread outputs and the
+//!     post-quiescence observations, as the Coq term `(chk_*_sched …, orc_* …)` (GV.Conc.Run):
+//!     first component = model on the same schedule == implementation (step by step: sites,
+//!     outputs, final state), second = the property on the implementation's observation
+//!     (cross-checks + equal to SOME sequential order);
+//!   * the finding class predicate of the domain applied to the programs.
+//! A watchdog turns a step that neither yields nor finishes into the observation "blocked".
+//! Hook-free phases (real OS scheduling) hammer the same operations and check the properties on
+//! the outcome (searched, not proved): ids, epochs, limit, accounting, log completeness,
+//! consistency of disjoint-entity programs, deadlock.
+use grafeo_adapters::storage::wal::{DurabilityMode, WalConfig, WalManager, WalRecord, WalRecovery};
+use grafeo_common::memory::buffer::{BufferManager, BufferManagerConfig, MemoryGrant, MemoryRegion};
+use grafeo_common::types::{EdgeId, NodeId, TxId, Value};
 use grafeo_core::graph::Direction;
-use grafeo_common::types::{NodeId, EdgeId, Value, TxId};
-use grafeo_adapters::storage::wal::{WalManager, WalConfig, WalRecord, WalRecovery, DurabilityMode};
-use std::sync::{Arc, Barrier};
-use std::time::Instant;
-fn main() {
-    // edge create/delete race
-    let t0 = Instant::now(); let mut torn = 0;
-    for _ in 0..3000 {
-        let st = Arc::new(LpgStore::new());
-        let a = st.create_node(&["A"]); let b = st.create_node(&["A"]);
-        let bar = Arc::new(Barrier::new(2));
-        let (s1,b1) = (st.clone(), bar.clone());
-        let h1 = std::thread::spawn(move || { b1.wait(); for _ in 0..4 { s1.create_edge(a, b, "R"); } });
-        let (s2,b2) = (st.clone(), bar.clone());
-        let h2 = std::thread::spawn(move || { b2.wait(); for e in 0..4 { for _ in 0..3 { s2.delete_edge(EdgeId::new(e)); } } });
-        h1.join().unwrap(); h2.join().unwrap();
-        let live: Vec<u64> = (0..4).filter(|e| st.get_edge(EdgeId::new(*e)).is_some()).collect();
-        let mut adj: Vec<u64> = st.edges_from(a, Direction::Outgoing).map(|(_, e)| e.as_u64()).collect(); adj.sort();
-        let mut adjin: Vec<u64> = st.edges_to(b).into_iter().map(|(_, e)| e.as_u64()).collect(); adjin.sort();
-        if adj != live || adjin != live { torn += 1; }
-    }
-    println!("edge create/delete race: torn={} {:?}", torn, t0.elapsed());
-    // add_label / remove_label same node same label
-    let t0 = Instant::now(); let mut torn = 0;
-    for _ in 0..3000 {
-        let st = Arc::new(LpgStore::new());
-        let ids: Vec<NodeId> = (0..4).map(|_| st.create_node(&["A"])).collect();
-        let bar = Arc::new(Barrier::new(2));
-        let (s1,b1,i1) = (st.clone(), bar.clone(), ids.clone());
-        let h1 = std::thread::spawn(move || { b1.wait(); for n in &i1 { s1.add_label(*n, "B"); } });
-        let (s2,b2,i2) = (st.clone(), bar.clone(), ids.clone());
-        let h2 = std::thread::spawn(move || { b2.wait(); for n in &i2 { for _ in 0..3 { s2.remove_label(*n, "B"); } } });
-        h1.join().unwrap(); h2.join().unwrap();
-        let inb = st.nodes_by_label("B");
-        let mut bad = false;
-        for n in &ids { let has = st.get_node(*n).unwrap().has_label("B"); if has != inb.contains(n) { bad = true; } }
-        if bad { torn += 1; }
-    }
-    println!("add/remove label race: torn={} {:?}", torn, t0.elapsed());
-    // property index set/set race
-    let t0 = Instant::now(); let mut torn = 0;
-    for _ in 0..2000 {
-        let st = Arc::new(LpgStore::new());
-        st.create_property_index("k");
-        let n = st.create_node(&["A"]);
-        let bar = Arc::new(Barrier::new(2));
-        let (s1,b1) = (st.clone(), bar.clone());
-        let h1 = std::thread::spawn(move || { b1.wait(); for v in 0..4i64 { s1.set_node_property(n, "k", Value::from(v)); } });
-        let (s2,b2) = (st.clone(), bar.clone());
-        let h2 = std::thread::spawn(move || { b2.wait(); for v in 10..14i64 { s2.set_node_property(n, "k", Value::from(v)); } });
-        h1.join().unwrap(); h2.join().unwrap();
-        let cur = st.get_node_property(n, &"k".into()).unwrap();
-        let mut hits = 0; for v in (0..4i64).chain(10..14) { if st.find_nodes_by_property("k", &Value::from(v)).contains(&n) { hits += 1; if Value::from(v) != cur { } } }
-        if hits != 1 || !st.find_nodes_by_property("k", &cur).contains(&n) { torn += 1; }
-    }
-    println!("property index set/set race: torn={} {:?}", torn, t0.elapsed());
-    // WAL rotation order
-    let t0 = Instant::now(); let mut bad_order = 0; let mut lost = 0;
-    for rep in 0..60 {
-        let dir = tempfile::tempdir().unwrap();
-        let cfg = WalConfig { durability: DurabilityMode::NoSync, max_log_size: 64, compression: false };
-        let wal = Arc::new(WalManager::with_config(dir.path(), cfg).unwrap());
-        let bar = Arc::new(Barrier::new(4));
-        let hs: Vec<_> = (0..4u64).map(|t| { let w = wal.clone(); let b = bar.clone(); std::thread::spawn(move || { b.wait(); for k in 0..50u64 { w.log(&WalRecord::DeleteNode { id: NodeId::new(t*1000+k) }).unwrap(); } }) }).collect();
-        for h in hs { h.join().unwrap(); }
-        wal.log(&WalRecord::TxCommit { tx_id: TxId::new(7) }).unwrap(); wal.sync().unwrap();
-        let recs = WalRecovery::new(dir.path()).recover().unwrap();
-        let ids: Vec<u64> = recs.iter().filter_map(|r| if let WalRecord::DeleteNode { id } = r { Some(id.as_u64()) } else { None }).collect();
-        if ids.len() != 200 { lost += 1; if lost <= 3 { println!("  rep {} recovered {} of 200", rep, ids.len()); } }
-        for t in 0..4u64 { let mine: Vec<u64> = ids.iter().copied().filter(|x| x / 1000 == t).collect(); if mine.windows(2).any(|w| w[0] > w[1]) { bad_order += 1; break; } }
-    }
-    println!("wal rotation: lost={} bad_order={} {:?}", lost, bad_order, t0.elapsed());
+use grafeo_core::graph::lpg::LpgStore;
+use grafeo_core::graph::rdf::{RdfStore, Term, Triple};
+use grafeo_engine::transaction::TransactionManager;
+use gv_harness::*;
+use std::cell::RefCell;
+use std::collections::{BTreeMap, BTreeSet, HashMap};
+use std::fmt::Write as _;
+use std::sync::atomic::{AtomicBool, AtomicU64, AtomicUsize, Ordering};
+use std::sync::mpsc::{Receiver, RecvTimeoutError, Sender, channel};
+use std::sync::{Arc, Barrier, Mutex};
+use std::time::{Duration, Instant};
+
+// ------------------------------------------------------------------------------------------------
+// outputs of operations (Coq: Inductive out := OZ | OB | ONone)
+
+#[derive(Clone, Debug, PartialEq, Eq)]
+enum Outv {
+    Z(i64),
+    B(bool),
+    None,
 }
+impl Outv {
+    fn coq(&self) -> String {
+        match self {
+            Outv::Z(z) => format!("OZ {}", zi(*z)),
+            Outv::B(b) => format!("OB {}", b),
+            Outv::None => "ONone".into(),
+        }
+    }
+}
+fn zi(v: i64) -> String {
+    if v < 0 { format!("({})", v) } else { format!("{}", v) }
+}
+fn zlist<I: IntoIterator<Item = i64>>(it: I) -> String {
+    let mut s = String::from("[");
+    for (i, x) in it.into_iter().enumerate() {
+        if i > 0 {
+            s.push_str("; ");
+        }
+        s.push_str(&zi(x));
+    }
+    s.push(']');
+    s
+}
+fn natlist(xs: &[usize]) -> String {
+    let mut s = String::from("[");
+    for (i, x) in xs.iter().enumerate() {
+        if i > 0 {
+            s.push_str("; ");
+        }
+        let _ = write!(s, "{}", x);
+    }
+    s.push_str("]%nat");
+    s
+}
+fn strlist(xs: &[String]) -> String {
+    let mut s = String::from("[");
+    for (i, x) in xs.iter().enumerate() {
+        if i > 0 {
+            s.push_str("; ");
+        }
+        let _ = write!(s, "\"{}\"%string", x);
+    }
+    s.push(']');
+    s
+}
+fn list_of<I: IntoIterator<Item = String>>(it: I) -> String {
+    let mut s = String::from("[");
+    for (i, x) in it.into_iter().enumerate() {
+        if i > 0 {
+            s.push_str("; ");
+        }
+        s.push_str(&x);
+    }
+    s.push(']');
+    s
+}
+
+// ------------------------------------------------------------------------------------------------
+// the scheduler
+
+enum Report {
+    Yield(&'static str),
+    Done(Outv),
+    Panic(String),
+}
+enum Grant {
+    Go,
+    Abort,
+}
+struct WorkerCtx {
+    tid: usize,
+    to_driver: Sender<(usize, Report)>,
+    grants: Receiver<Grant>,
+    /// stop also at the yield points that lie INSIDE critical sections (sites "held:…")
+    stop_held: bool,
+}
+thread_local! {
+    static CTX: RefCell<Option<WorkerCtx>> = const { RefCell::new(None) };
+}
+/// payload of the unwinding that ends a worker whose case was given up by the watchdog
+struct AbortCase;
+
+/// mode of the hook for threads that are not scheduler workers: 0 = nothing, 1 = perturb
+/// (yield_now / short spin, used by the stress phases to widen race windows)
+static PERTURB: AtomicBool = AtomicBool::new(false);
+static PERTURB_CTR: AtomicU64 = AtomicU64::new(0);
+
+fn hook(site: &'static str) {
+    let is_worker = CTX.with(|c| c.borrow().is_some());
+    if !is_worker {
+        if PERTURB.load(Ordering::Relaxed) && !site.starts_with("held:") {
+            let n = PERTURB_CTR.fetch_add(0x9E37_79B9_7F4A_7C15, Ordering::Relaxed);
+            match (n >> 60) & 3 {
+                0 => std::thread::yield_now(),
+                1 => {
+                    for _ in 0..((n >> 50) & 255) {
+                        std::hint::spin_loop();
+                    }
+                }
+                _ => {}
+            }
+        }
+        return;
+    }
+    let abort = CTX.with(|c| {
+        let b = c.borrow();
+        let ctx = b.as_ref().unwrap();
+        if site.starts_with("held:") && !ctx.stop_held {
+            return false;
+        }
+        if ctx.to_driver.send((ctx.tid, Report::Yield(site))).is_err() {
+            return true;
+        }
+        !matches!(ctx.grants.recv(), Ok(Grant::Go))
+    });
+    if abort {
+        CTX.with(|c| *c.borrow_mut() = None);
+        std::panic::resume_unwind(Box::new(AbortCase));
+    }
+}
+
+#[derive(Clone, Debug, PartialEq, Eq)]
+enum Status {
+    Finished,
+    /// thread `tid` was granted step `step` and neither yielded nor finished within the watchdog time
+    Blocked { tid: usize, step: usize },
+    Panicked { tid: usize, step: usize, msg: String },
+}
+struct RunResult<L> {
+    sched: Vec<usize>,
+    events: Vec<String>,
+    outs: Vec<Vec<Outv>>,
+    status: Status,
+    locals: Vec<Option<L>>,
+}
+
+static WATCHDOG_MS: AtomicU64 = AtomicU64::new(20_000);
+static BLOCKED_SEEN: AtomicUsize = AtomicUsize::new(0);
+
+/// Runs `progs` (one operation list per thread) under the schedule chosen step by step by
+/// `choose(live threads) -> thread`; `after_step` is called by the driver after every step while
+/// all workers are parked (it may read the shared state).
+fn run_sched<Op, L>(
+    progs: &[Vec<Op>],
+    exec: Arc<dyn Fn(usize, &Op, &mut L) -> Outv + Send + Sync>,
+    mk_local: fn() -> L,
+    stop_held: bool,
+    choose: &mut dyn FnMut(&[usize]) -> usize,
+    after_step: &mut dyn FnMut(usize),
+) -> RunResult<L>
+where
+    Op: Clone + Send + 'static,
+    L: Send + 'static,
+{
+    let n = progs.len();
+    let (to_driver, from_workers) = channel::<(usize, Report)>();
+    let mut grant_tx: Vec<Sender<Grant>> = Vec::new();
+    let mut handles = Vec::new();
+    for (tid, prog) in progs.iter().enumerate() {
+        let (gt, gr) = channel::<Grant>();
+        grant_tx.push(gt);
+        let prog = prog.clone();
+        let exec = exec.clone();
+        let to_driver = to_driver.clone();
+        handles.push(std::thread::spawn(move || -> Option<L> {
+            let mut local = mk_local();
+            CTX.with(|c| *c.borrow_mut() = Some(WorkerCtx { tid, to_driver: to_driver.clone(), grants: gr, stop_held }));
+            for op in &prog {
+                // gate at the start of the operation
+                let go = CTX.with(|c| matches!(c.borrow().as_ref().unwrap().grants.recv(), Ok(Grant::Go)));
+                if !go {
+                    CTX.with(|c| *c.borrow_mut() = None);
+                    return Some(local);
+                }
+                let r = catch(std::panic::AssertUnwindSafe(|| exec(tid, op, &mut local)));
+                match r {
+                    Ok(o) => {
+                        let _ = to_driver.send((tid, Report::Done(o)));
+                    }
+                    Err(m) => {
+                        if CTX.with(|c| c.borrow().is_none()) {
+                            // aborted by the watchdog (AbortCase)
+                            return Some(local);
+                        }
+                        let _ = to_driver.send((tid, Report::Panic(m)));
+                        CTX.with(|c| *c.borrow_mut() = None);
+                        return Some(local);
+                    }
+                }
+            }
+            CTX.with(|c| *c.borrow_mut() = None);
+            Some(local)
+        }));
+    }
+    drop(to_driver);
+    let mut remaining: Vec<usize> = progs.iter().map(|p| p.len()).collect();
+    let mut res = RunResult { sched: vec![], events: vec![], outs: vec![vec![]; n], status: Status::Finished, locals: vec![] };
+    let mut blocked: Option<usize> = None;
+    loop {
+        let live: Vec<usize> = (0..n).filter(|&i| remaining[i] > 0).collect();
+        if live.is_empty() {
+            break;
+        }
+        let t = choose(&live);
+        let step = res.sched.len();
+        res.sched.push(t);
+        let _ = grant_tx[t].send(Grant::Go);
+        let wd = Duration::from_millis(WATCHDOG_MS.load(Ordering::Relaxed));
+        match from_workers.recv_timeout(wd) {
+            Ok((tid, rep)) => {
+                debug_assert_eq!(tid, t);
+                match rep {
+                    Report::Yield(s) => res.events.push(s.to_string()),
+                    Report::Done(o) => {
+                        res.events.push("ret".into());
+                        res.outs[t].push(o);
+                        remaining[t] -= 1;
+                    }
+                    Report::Panic(m) => {
+                        res.events.push("panic".into());
+                        res.status = Status::Panicked { tid: t, step, msg: m };
+                        break;
+                    }
+                }
+            }
+            Err(RecvTimeoutError::Timeout) | Err(RecvTimeoutError::Disconnected) => {
+                res.events.push("blocked".into());
+                res.status = Status::Blocked { tid: t, step };
+                blocked = Some(t);
+                BLOCKED_SEEN.fetch_add(1, Ordering::Relaxed);
+                break;
+            }
+        }
+        after_step(step);
+    }
+    // release everybody who is parked; a blocked thread is leaked (it sits in a lock of the code under test)
+    for (i, g) in grant_tx.iter().enumerate() {
+        if Some(i) != blocked {
+            let _ = g.send(Grant::Abort);
+        }
+    }
+    for (i, h) in handles.into_iter().enumerate() {
+        if Some(i) == blocked {
+            res.locals.push(None);
+            std::mem::forget(h);
+        } else {
+            res.locals.push(h.join().ok().flatten());
+        }
+    }
+    res
+}
+
+/// Depth-first enumeration of all schedules (stateless: every schedule re-runs from scratch).
+/// `run(choose)` performs one run; returns false to stop the enumeration.
+fn enumerate_all(limit: usize, mut run: impl FnMut(&mut dyn FnMut(&[usize]) -> usize) -> bool) -> usize {
+    let mut prefix: Vec<usize> = vec![];
+    let mut count = 0;
+    loop {
+        let mut taken: Vec<(usize, usize)> = vec![];
+        let cont = {
+            let mut ch = |live: &[usize]| {
+                let k = taken.len();
+                let c = if k < prefix.len() { prefix[k] } else { 0 };
+                let c = c.min(live.len() - 1);
+                taken.push((c, live.len()));
+                live[c]
+            };
+            run(&mut ch)
+        };
+        count += 1;
+        if !cont || count >= limit {
+            return count;
+        }
+        loop {
+            match taken.pop() {
+                None => return count,
+                Some((c, n)) => {
+                    if c + 1 < n {
+                        prefix = taken.iter().map(|x| x.0).collect();
+                        prefix.push(c + 1);
+                        break;
+                    }
+                }
+            }
+        }
+    }
+}
+
+fn status_text(s: &Status) -> String {
+    match s {
+        Status::Finished => "finished".into(),
+        Status::Blocked { tid, step } => format!("BLOCKED: thread {} granted at step {} neither reached a yield point nor finished", tid, step),
+        Status::Panicked { tid, step, msg } => format!("PANIC in thread {} at step {}: {}", tid, step, msg),
+    }
+}
+
+/// common case emission: `pair` = "(chk…, orc…)" evaluated in Coq by checks/c20.py
+#[allow(clippy::too_many_arguments)]
+fn emit_sched_case(
+    out: &mut Out,
+    kind: &str,
+    input: String,
+    status: &Status,
+    pair: String,
+    show: String,
+    kcoq: Option<String>,
+    kid: Option<&str>,
+    nontrivial: bool,
+    imp: String,
+    mut tags: Vec<String>,
+) {
+    let mut c = Case { kind: kind.into(), input, nontrivial, imp, ..Default::default() };
+    match status {
+        Status::Finished => {
+            c.msg = format!("ocoq={}", pair);
+            c.show = Some(show);
+            c.kcoq = kcoq;
+            c.kid = kid.map(|s| s.to_string());
+            c.oracle = Oracle::Na; // decided in Coq
+        }
+        _ => {
+            // a deadlock, a blocked schedule or a panic is an observation that violates the property outright
+            c.oracle = Oracle::Fail;
+            c.msg = status_text(status);
+            c.kcoq = kcoq;
+            c.kid = kid.map(|s| s.to_string());
+            tags.push(match status {
+                Status::Blocked { .. } => "status:blocked".into(),
+                _ => "status:panic".into(),
+            });
+        }
+    }
+    c.tags = tags;
+    out.emit(&c);
+}
+
+include!("c20_lpg.in");
+include!("c20_rdf.in");
+include!("c20_misc.in");
+include!("c20_stress.in");
+include!("c20_main.in");
